@@ -8,7 +8,7 @@ import driver
 
 ENGINE = "gen_concat"
 
-RULE = ("programs = `const` items invoking str_concat! (over &[&str] and &[char]; inline array, named const, &CONST array), "
+RULE = ("programs = `const` items invoking str_concat! (over &[&str] and &[char]; inline array, named const, &CONST array, `[piece; COUNT]` with a named count; in a third of the programs the caller's constants carry names that konst's own macro bodies give to their helper items - LEN, STR, CONC, ... harvested from /repo's sources), "
         "str_join! (str and char separators: empty, 1-, 2-, 3-, 4-byte, multi-char; literal or named const), string::from_iter! "
         "(DSL chains yielding &str / &&str / char incl. flat_map, filter, map, rev, char ranges) and slice_concat! (u8, u16, &str, "
         "char elements, empty inner slices, empty list) with 0..=4 pieces of <= 3 chars over {a,é,漢,😀} incl. empty pieces; "
@@ -30,7 +30,38 @@ def piece(rng):
     return "".join(rng.choice(CH) for _ in range(n))
 
 
+_NAMES = None
+
+
+def caller_names():
+    """names for the caller's constants: mostly ordinary, sometimes taken from the items konst's macros declare"""
+    global _NAMES
+    if _NAMES is None:
+        _NAMES = driver.macro_item_names()["const"] or ["LEN"]
+    return _NAMES
+
+
 def gen(rng, i):
+    g = gen_plain(rng, i)
+    decl, ty, kexpr, oexpr, nt, desc = g
+    if rng.random() < 0.35:
+        # rename the caller's constants (P<i>, S<i>, N<i>) to names that konst's own macro bodies use for their items
+        import re
+        pool = list(caller_names())
+        rng.shuffle(pool)
+        used = []
+        for stem in ("P%d" % i, "S%d" % i, "N%d" % i):
+            if re.search(r"\b%s\b" % stem, decl) and pool:
+                name = pool.pop()
+                used.append(name)
+                decl, kexpr, oexpr = (re.sub(r"\b%s\b" % stem, name, t) for t in (decl, kexpr, oexpr))
+        if used:
+            desc = dict(desc, caller_const_names=used)
+            nt = True
+    return decl, ty, kexpr, oexpr, nt, desc
+
+
+def gen_plain(rng, i):
     kind = rng.choice(["concat_str", "concat_str", "concat_char", "join", "join", "join", "from_iter", "from_iter", "slice_concat", "slice_concat"])
     k = rng.randint(0, 4)
     pieces = [piece(rng) for _ in range(k)]
@@ -38,7 +69,14 @@ def gen(rng, i):
     decl = ""
     if kind == "concat_str":
         arr = "[" + ", ".join(lit(p) for p in pieces) + "]"
-        form = rng.choice(["inline", "named_slice", "ref_named_array"])
+        form = rng.choice(["inline", "named_slice", "ref_named_array", "repeat_named"])
+        if form == "repeat_named":
+            p0 = pieces[0] if pieces else "é"
+            n = rng.randint(0, 5)
+            decl = "const N%d: usize = %d;" % (i, n)
+            kexpr = "konst::string::str_concat!(&[%s; N%d])" % (lit(p0), i)
+            oexpr = "[%s; N%d].concat()" % (lit(p0), i)
+            return decl, "&str", kexpr, oexpr, n >= 2 and not p0.isascii(), {"kind": kind, "form": form, "piece": p0, "count": n}
         if form == "inline":
             arg = "&" + arr
         elif form == "named_slice":
